@@ -97,6 +97,32 @@ void algebra_cases(Index rows, Index cols, const Pattern& p)
   }
 }
 
+// X += alpha * D * A * B with square 2x2 blocks: (i) all operands BCSR, (ii) D and B scalar CSR matrices acting block-wise (each scalar multiplies a block)
+template<typename DT>
+void double_product_cases(Index m, Index l, Index k, Index n, const Pattern& pd, const Pattern& pa, const Pattern& pb)
+{
+  constexpr int BS = 2; typedef LAFEM::SparseMatrixBCSR<DT, Index, BS, BS> MT; typedef LAFEM::SparseMatrixCSR<DT, Index> CT;
+  std::string cfg = str(m) + "x" + str(l) + "x" + str(k) + "x" + str(n) + " D[" + pat_str(pd) + "] A[" + pat_str(pa) + "] B[" + pat_str(pb) + "]";
+  Pattern full(m); for(Index i = 0; i < m; ++i) for(Index j = 0; j < n; ++j) full[i].push_back(j);
+  auto mm = [&](const Dense<DT>& P, const Dense<DT>& Q) { Dense<DT> R = dense_zero<DT>(Index(P.size()), Index(Q[0].size())); for(size_t i = 0; i < P.size(); ++i) for(size_t j = 0; j < Q[0].size(); ++j) for(size_t t = 0; t < Q.size(); ++t) R[i][j] += P[i][t] * Q[t][j]; return R; };
+  { std::string cn = "add_double_mat_product (BCSR,BCSR,BCSR) " + cfg; if(H<DT>::want(cn)) {
+    H<DT>::begin(cn, "{\"op\":\"double product\"}");
+    Dense<DT> DD, DA, DB, DX; MT D = make_bcsr<DT, Index, BS, BS, MT>(m, l, pd, "d", &DD), A = make_bcsr<DT, Index, BS, BS, MT>(l, k, pa, "a", &DA), Bm = make_bcsr<DT, Index, BS, BS, MT>(k, n, pb, "b", &DB), X = make_bcsr<DT, Index, BS, BS, MT>(m, n, full, "x", &DX);
+    DT alpha = H<DT>::var("alpha", 0.75);
+    int rc = guarded([&] { X.add_double_mat_product(D, A, Bm, alpha); Dense<DT> R = expand<DT, BS, BS>(X), P = mm(mm(DD, DA), DB);
+      for(Index i = 0; i < m * BS; ++i) for(Index j = 0; j < n * BS; ++j) H<DT>::eq("X += alpha D A B (" + str(i) + "," + str(j) + ")", R[i][j], DX[i][j] + alpha * P[i][j]); });
+    H<DT>::fact("completes", rc == 0, rc == 2 ? "memory fault" : "abort"); H<DT>::end(); } }
+  { std::string cn = "add_double_mat_product (CSR,BCSR,CSR) " + cfg; if(H<DT>::want(cn)) {
+    H<DT>::begin(cn, "{\"op\":\"double product\"}");
+    Dense<DT> Dd, DA, Db, DX; CT D = make_csr<DT>(m, l, pd, "d", &Dd); MT A = make_bcsr<DT, Index, BS, BS, MT>(l, k, pa, "a", &DA); CT Bm = make_csr<DT>(k, n, pb, "b", &Db); MT X = make_bcsr<DT, Index, BS, BS, MT>(m, n, full, "x", &DX);
+    DT alpha = H<DT>::var("alpha", 0.75);
+    // block-wise action of the scalar matrices = Kronecker product with the identity
+    auto kron = [&](const Dense<DT>& S, Index r, Index c) { Dense<DT> K = dense_zero<DT>(r * BS, c * BS); for(Index i = 0; i < r; ++i) for(Index j = 0; j < c; ++j) for(int a = 0; a < BS; ++a) K[i * BS + Index(a)][j * BS + Index(a)] = S[i][j]; return K; };
+    int rc = guarded([&] { X.add_double_mat_product(D, A, Bm, alpha); Dense<DT> R = expand<DT, BS, BS>(X), P = mm(mm(kron(Dd, m, l), DA), kron(Db, k, n));
+      for(Index i = 0; i < m * BS; ++i) for(Index j = 0; j < n * BS; ++j) H<DT>::eq("X += alpha (D x I) A (B x I) (" + str(i) + "," + str(j) + ")", R[i][j], DX[i][j] + alpha * P[i][j]); });
+    H<DT>::fact("completes", rc == 0, rc == 2 ? "memory fault" : "abort"); H<DT>::end(); } }
+}
+
 template<typename DT>
 void run_all()
 {
@@ -107,6 +133,14 @@ void run_all()
       algebra_cases<DT, 2, 3>(rows, cols, p);
       if(rows == cols) algebra_cases<DT, 2, 2>(rows, cols, p);
     }
+  // double products: shapes 1..2 with full and a few sparse operand patterns
+  for(Index m = 1; m <= 2; ++m) for(Index l = 1; l <= 2; ++l) for(Index n = 1; n <= 2; ++n)
+  {
+    const Index k = l;
+    auto fullp = [](Index r, Index c) { Pattern p(r); for(Index i = 0; i < r; ++i) for(Index j = 0; j < c; ++j) p[i].push_back(j); return p; };
+    double_product_cases<DT>(m, l, k, n, fullp(m, l), fullp(l, k), fullp(k, n));
+    if(l == 2) { Pattern dg(2); dg[0].push_back(0); dg[1].push_back(1); Pattern up(2); up[0].push_back(0); up[0].push_back(1); up[1].push_back(1); double_product_cases<DT>(m, l, k, n, fullp(m, l), dg, fullp(k, n)); double_product_cases<DT>(m, l, k, n, fullp(m, l), up, fullp(k, n)); }
+  }
 }
 
 int main(int argc, char** argv)
